@@ -29,7 +29,7 @@ Definition sl_all (w : string) : string :=
   with_prog w (fun p => render p ++ "@" ++ eval_cells p ++ "@" ++ run_m the_cfg p ++ "@" ++ show_compiled the_cfg p).
 
 (* everything about one program in ONE evaluation (the program is decoded and compiled once):
-   render @ eval_cells @ run_m @ non-trivial? @ accesses to closed upvalues @ code *)
+   render @ eval_cells @ run_m @ non-trivial? @ accesses to closed upvalues @ discipline kept? cell-store run equal? @ code *)
 Definition sl_bundle (w : string) : string :=
   with_prog w (fun p =>
     let ev := eval_cells p in
@@ -38,8 +38,11 @@ Definition sl_bundle (w : string) : string :=
         let acc := rev (access_loop the_cfg funs (machine_fuel * 25) (m_start funs) []) in
         render p ++ "@" ++ ev ++ "@" ++ run_funs the_cfg (machine_fuel * 25) funs ++ "@" ++
         show_bool (write_then_other_read acc) ++ "@" ++ show_nat (List.length acc) ++ "@" ++
+        (* the run over the cell store: discipline kept? same outcome as over Upvalues.v? (backend_swap) *)
+        show_bool (discipline_kept the_cfg (machine_fuel * 25) funs) ++
+        show_bool (String.eqb (Gen.run_funs bk_c the_cfg (machine_fuel * 25) funs) (run_funs the_cfg (machine_fuel * 25) funs)) ++ "@" ++
         concat "|" (map show_func funs)
-    | None => render p ++ "@" ++ ev ++ "@#compile-error@F@0@ERR " ++ compile_error the_cfg p
+    | None => render p ++ "@" ++ ev ++ "@#compile-error@F@0@--@ERR " ++ compile_error the_cfg p
     end).
 
 (* attribution of a deviation to a (formerly) known class: the model with one repair switched on:
